@@ -307,13 +307,17 @@ func sameNames(a, b []string) bool {
 
 // invalidUTF8Col: first column holding a string/blob cell that is not valid UTF-8 ("" if none).
 func invalidUTF8Col(rs *resultSet, nrows int) (key string, cell tcell) {
-	for _, ct := range rs.cols {
-		for i, t := range ct.cells {
-			if i >= nrows {
-				break
-			}
-			if (t.kind == "str" || t.kind == "bin") && !utf8.Valid(t.s) {
-				return ct.key, t
+	// VARCHAR cells first: they reach writeJSONString unconverted (hand-built records only; DuckDB's VARCHAR is
+	// always valid UTF-8). BLOB cells go through blobText (ASCII) and can only be the culprit when no VARCHAR is.
+	for _, kind := range []string{"str", "bin"} {
+		for _, ct := range rs.cols {
+			for i, t := range ct.cells {
+				if i >= nrows {
+					break
+				}
+				if t.kind == kind && !utf8.Valid(t.s) {
+					return ct.key, t
+				}
 			}
 		}
 	}
@@ -338,7 +342,7 @@ func (m *monitor) checkDecoded(format string, rs *resultSet, d decoded, expectRo
 				key = rs.cols[0].key
 			}
 		}
-		if key == "utf8" && format == "json" {
+		if (key == "utf8" || key == "large_utf8") && format == "json" {
 			c.Tag("json:invalid-utf8-varchar-passthrough(unreachable-from-duckdb)")
 		} else {
 			c.Fail(format+"-malformed:"+key, fmt.Sprintf("%s response is not well-formed: %s", format, d.malformed),
